@@ -11,9 +11,9 @@ T = {
  "C03": ("exploration", "small-scope exhaustive enumeration (regex ASTs x buffers) vs position-set reference", "3/C03",
          "every regex AST up to a node bound, greedy and lazy, x flags x every buffer over a 6-letter alphabet compared with a set-of-positions regex semantics; families with one and two counted repeats around the atom; window family of 5..8 one-character nodes (plain, grouped, alternation branch, counted)", "ref_re; bounded AST size and alphabet"),
  "C04": ("exploration", "exhaustive enumeration of condition sub-languages vs independent evaluator", "3/C04",
-         "complete operator tables, precedence pairs, undefined placements, string queries, of/for forms, and a grid of constant operator expressions as at / in / reader operands, evaluated by the real VM and by a Python evaluator written from the manual", "ref_cond evaluator (lib/refcond.py)"),
+         "complete operator tables, precedence pairs, undefined placements, string queries, of/for forms, a grid of constant operator expressions as at / in / reader operands, and `Q of (<rule set>)` with the referenced rules at every position of the match-bit words, evaluated by the real VM and by a Python evaluator written from the manual", "ref_cond evaluator (lib/refcond.py)"),
  "C05": ("exploration", "exhaustive enumeration of rule sub-multisets and orders, twin + reference oracle", "3/C05",
-         "every ordered subset of a rule pool (and every small set of strings over {a,b}) compiled together vs alone; every pool rule after N filler rules with N around the bitmap boundaries 8/64/128/256; every cut of a namespace text into add calls and includes; traces must agree", "pool composition; reference matcher for the automaton sub-space"),
+         "every ordered subset of a rule pool (and every small set of strings over {a,b}) compiled together vs alone; every pool rule after N filler rules with N around the bitmap boundaries 8/64/128/256; every cut of a namespace text into add calls and includes; wide sets whose members differ only in binary table keys (digest ranges, NUL-prefixed strings); traces must agree", "pool composition; reference matcher for the automaton sub-space"),
  "C06": ("exploration", "exhaustive 1-deviation neighbourhood of seed files under ASan/UBSan", "3/C06",
          "every truncation and every single boundary-value byte/field deviation of in-tree executables (little- and big-endian ELF, PE, Mach-O, DEX, .NET) and of a synthetic .NET image with recursive metadata is scanned with generated all-fields rules under sanitizers; nothing is claimed beyond the neighbourhood", "seed set; sanitizer as crash oracle; UBSan groups disabled as listed in DESIGN 5"),
  "C07": ("exploration", "exhaustive token-level 1-deviation neighbourhood of seed rules + all short token sequences, under ASan with leak accounting", "3/C07",
